@@ -149,13 +149,16 @@ def run_check(pid, tier, seed, replay=None, repeat=1):
         for key, r, msg in violations:
             bykey.setdefault(key, []).append((r, msg))
         new = []
+        kf = collections.OrderedDict()
         for key, lst in bykey.items():
             k = match_known(known, pid, key)
             if k:
-                print('KNOWN-FINDING: property=%s %s [%s] (%d occurrences this run)' % (pid, k['what'], key, len(lst)))
+                e = kf.setdefault(id(k), [k, [], 0]); e[1].append(key); e[2] += len(lst)
             else:
                 path = write_replay(pid, key, lst[0][0], {'message': lst[0][1], 'occurrences': len(lst)})
                 new.append((key, path, lst))
+        for k, keys, cnt in kf.values():
+            print('KNOWN-FINDING: property=%s %s [%d occurrences this run under %d key(s), e.g. %s]' % (pid, k['what'], cnt, len(keys), keys[0]))
         # ---- coverage / evidence ----
         cov = P.coverage(ctx, prop, recs)
         cov['known_finding_keys_seen'] = sorted(k for k in bykey if match_known(known, pid, k))
